@@ -55,16 +55,16 @@ def _check_main(run, P):
     run.rule("C05.nulls", "the post-simplification pass removes an empty node from "
              "every child slot of every node class, so the walker never meets one",
              minimum=4)
-    _nulls(run, P)
-    _sorted(run, P)
+    run.do(_nulls, run, P)
+    run.do(_sorted, run, P)
     # the roots the walk starts from are computed order-independently (shared with C04.sinks)
     from . import c04 as _c04
     from .c01 import _alias as _al
     _al(run, "C04.sinks", "C05.sorted", lambda: _c04._sinks(run, P))
-    _topo_wrap(run, P)
-    _loops(run, P)
-    _cond(run, P)
-    _walker(run, P)
+    run.do(_topo_wrap, run, P)
+    run.do(_loops, run, P)
+    run.do(_cond, run, P)
+    run.do(_walker, run, P)
     from . import c06
     from .c01 import _alias
     for src in ("C06.splice", "C06.pop", "C06.keep", "C06.neg", "C06.same", "C06.merge",
@@ -74,14 +74,14 @@ def _check_main(run, P):
         run.minimum[src] = 0
     n0 = len(run.obs)
     m = P.module(MOD)
-    c06._splice_and_pop(run, P, m)
-    c06._keep(run, P)
-    c06._ifthenelse(run, P)
-    c06._merge(run, P)
-    c06._handlers(run, P)
-    c06._lost(run, P)
-    c06._identity(run, P)
-    c06._flat(run, P)
+    run.do(c06._splice_and_pop, run, P, m)
+    run.do(c06._keep, run, P)
+    run.do(c06._ifthenelse, run, P)
+    run.do(c06._merge, run, P)
+    run.do(c06._handlers, run, P)
+    run.do(c06._lost, run, P)
+    run.do(c06._identity, run, P)
+    run.do(c06._flat, run, P)
     for o in run.obs[n0:]:
         o.rule = "C05.simplify"
     for src in list(run.rule_docs):
